@@ -660,3 +660,32 @@ example :
   decide
 
 end Remoc.Table.Sys
+
+namespace Remoc.Table.Sys
+open Remoc.Wire Remoc.Table
+
+/-- **No event that the API objects of a conforming application queue makes the dispatcher panic**
+(all interleavings): in every reachable state the head of `connect_rx` and the head of `channel_rx`
+of either side are handled by `handle_event` (`handleEvt … = some …`): a connect request names an
+unused port, an accept/reject names an outstanding request and an unused port, a
+`SenderDropped` / `ReceiverClosed` / `ReceiverDropped` names a connected port whose flag is not set
+yet.  The events the dispatcher raises itself (`ListenerDropped`, `SendGoodbye`) are guarded by
+their flags in `stepSide`. -/
+theorem conforming_no_panic (mpA cqA mpB cqB : Nat) (ls : List (Who × Lab)) (x : Who) (ev : Evt) (rest : List Evt) :
+    let s := run (init mpA cqA mpB cqB) ls
+    ((side s x).connQ = ev :: rest ∨ (side s x).portQ = ev :: rest) → (handleEvt (side s x).ep ev).isSome = true := by
+  intro s hq
+  have hi := inv4_run _ ls (inv4_init mpA cqA mpB cqB)
+  cases x with
+  | A =>
+    obtain ⟨h1, h2⟩ := evt_ok s.b s.a s.toA s.toB hi.i3.i2.r.ba hi.i3.i2.r.qa hi.i3.ca hi.aa hi.ha
+    rcases hq with hq | hq
+    · exact h1 ev rest hq
+    · exact h2 ev rest hq
+  | B =>
+    obtain ⟨h1, h2⟩ := evt_ok s.a s.b s.toB s.toA hi.i3.i2.r.ab hi.i3.i2.r.qb hi.i3.cb hi.ab hi.hb
+    rcases hq with hq | hq
+    · exact h1 ev rest hq
+    · exact h2 ev rest hq
+
+end Remoc.Table.Sys
